@@ -127,6 +127,7 @@ func (b *Box) getOrCreateMessagesByTopic(topic []byte) *storedMessages {
 	if exists {
 		return messages
 	}
+	verifPoint("goc.upgradeGap")
 
 	b.lock.Lock()
 	defer b.lock.Unlock()
@@ -143,11 +144,14 @@ func (b *Box) getOrCreateMessagesByTopic(topic []byte) *storedMessages {
 func (b *Box) storeOrForward(msg *IncMessage) {
 	b.initialize()
 
+	verifPoint("sof.beforeStartedCheck")
 	if b.hasStartedSending(msg.Topic) {
+		verifPoint("sof.beforeForward")
 		b.MessageHandler.HandleMessage(msg)
 		return
 	}
 
+	verifPoint("sof.afterStartedCheck")
 	var tooManyTopicsFromSender bool
 
 	b.lock.RLock()
@@ -161,10 +165,14 @@ func (b *Box) storeOrForward(msg *IncMessage) {
 		return
 	}
 
+	verifPoint("sof.beforeMark")
 	b.markTopicForSender(msg)
 
+	verifPoint("sof.afterMark")
 	messages := b.getOrCreateMessagesByTopic(msg.Topic)
+	verifPoint("sof.beforeAdd")
 	messages.add(msg)
+	verifPoint("sof.afterStore")
 }
 
 func (b *Box) markTopicForSender(msg *IncMessage) {
@@ -262,6 +270,7 @@ func (b *Box) Send(msgType uint8, topic []byte, msg []byte, to ...UniversalID) {
 
 	defer b.maybeGC()
 
+	verifPoint("send.beforeLock")
 	b.lock.Lock()
 	b.startedSending[string(topic)] = atomic.LoadUint64(&b.currentGCEpochNum)
 	msgs := b.pendingMessages[string(topic)]
@@ -273,14 +282,17 @@ func (b *Box) Send(msgType uint8, topic []byte, msg []byte, to ...UniversalID) {
 	}
 
 	defer func() {
+		verifPoint("send.beforeFlush")
 		for _, msg := range messages {
 			b.HandleMessage(msg)
+			verifPoint("send.betweenFlush")
 		}
 	}()
 
 	delete(b.pendingMessages, string(topic))
 
 	b.lock.Unlock()
+	verifPoint("send.afterUnlock")
 
 	b.ForwardSend(msgType, topic, msg, to...)
 }
